@@ -241,6 +241,7 @@ func C07(p *core.Program, r *core.Report) {
 
 	checkAgentsAlwaysDrain(p, r)
 	checkMuxChildrenGuarded(p, r)
+	checkLoopVarCapture(p, r)
 	// epidemic routing admits a bundle for a local endpoint to dispatching (and so to local delivery) by the
 	// destination it recorded in the store item when the bundle was announced: that record must be written back
 	checkPropertiesPersisted(p, r)
